@@ -3,8 +3,12 @@
 usage: tools/seeds.py <seed-dir>... [--props C01,C02]   (seed-dir holds patch.diff; applied to /repo and reverted afterwards)"""
 import json, os, subprocess, sys
 
+SCR = '/tmp/seedrepo'
+ENV = dict(os.environ, OPQ_REPO=SCR, OPQ_WORK='/tmp/seedwork')
+
+
 def sh(cmd):
-    return subprocess.run(cmd, shell=True, capture_output=True, text=True)
+    return subprocess.run(cmd, shell=True, capture_output=True, text=True, env=ENV)
 
 def main():
     args = [a for a in sys.argv[1:] if not a.startswith('--')]
@@ -15,12 +19,16 @@ def main():
     man = json.load(open('/verif/MANIFEST.json'))
     allp = [c['property_id'] for c in man['checks']]
     extra = [p for p in (props or []) if p not in allp]
-    assert sh('git -C /repo status --porcelain').stdout.strip() == '', 'repo not clean'
+    # patches are evaluated on a scratch worktree of /repo HEAD with its own work directory; /repo itself is never touched
+    sh('git -C /repo worktree remove --force %s' % SCR)
+    r = sh('git -C /repo worktree add --detach %s HEAD' % SCR)
+    assert r.returncode == 0, r.stderr
+    os.makedirs('/tmp/seedwork', exist_ok=True)
     for sd in args:
         patch = os.path.join(sd, 'patch.diff')
-        r = sh('git -C /repo apply %s' % patch)
+        r = sh('git -C %s apply %s' % (SCR, patch))
         if r.returncode != 0:
-            r = sh('cd /repo && patch -p1 -F3 --no-backup-if-mismatch < %s' % patch)
+            r = sh('cd %s && patch -p1 -F3 --no-backup-if-mismatch < %s' % (SCR, patch))
         if r.returncode != 0:
             print(sd, 'PATCH-DOES-NOT-APPLY', r.stderr.strip()[:200]); continue
         row = {}
@@ -41,11 +49,14 @@ def main():
                     if r.returncode == 1 and os.environ.get('SEED_VERBOSE'):
                         print(r.stdout[-1500:])
         finally:
-            sh('git -C /repo checkout -- . && git -C /repo clean -fdq -e target')
+            sh('git -C %s checkout -- . && git -C %s clean -fdq -e target' % (SCR, SCR))
         caught = [p for p, v in row.items() if v == 'CAUGHT']
         errs = {p: v for p, v in row.items() if isinstance(v, str) and v.startswith('ERR')}
         print(sd, 'caught by', caught or 'NOTHING', errs or '', flush=True)
         json.dump(row, open(os.path.join(sd, 'checks.json'), 'w'), indent=1)
 
 if __name__ == '__main__':
-    main()
+    try:
+        main()
+    finally:
+        subprocess.run('git -C /repo worktree remove --force %s' % SCR, shell=True, capture_output=True)
